@@ -39,9 +39,11 @@ let run () = iter_lines (fun line ->
         report "SPEC:C12" ("the executor did not run the history: " ^ (match impl with x :: _ -> x | [] -> "")) line
       end else begin
         let seen = ref "" in
+        let dead = ref false in   (* a fatal shell error (e.g. an unbound variable under set -u) ends the ONE session: nothing to compare with from there on *)
         List.iteri (fun i ((c, _, det), (a, b)) ->
           if not det then seen := !seen ^ c;
-          if a <> b then begin
+          if contains b "<missing marker" && not !dead then (dead := true; bump "inconclusive:the-reference-session-died");
+          if a <> b && not !dead then begin
             (* which known findings can explain a difference at this point of the history *)
             let vars = (if String.contains !seen 'U' then ["INH2"] else []) @ (if String.contains !seen 'B' then ["IFS"] else []) @ (if String.contains !seen 'r' then ["RO"] else []) in
             if vars <> [] && without vars a = without vars b then begin
@@ -58,7 +60,8 @@ let run () = iter_lines (fun line ->
             | [declared; all; ro] ->
               let declared = words (string_of_hex declared) and all = words (string_of_hex all) and ro = words (string_of_hex ro) in
               (* a value with a line that itself starts with `declare -` confuses the line-wise reading of the file here: skip those histories *)
-              if not (List.mem "fake" declared) && not (List.exists (fun (_, s, _) -> contains s "declare -r fake") steps) then begin
+              (* no list of names: the test case that wrote this file died of a fatal shell error before the probe *)
+              if all <> [] && not (List.mem "fake" declared) && not (List.exists (fun (_, s, _) -> contains s "declare -r fake") steps) then begin
                 let want = List.map (fun n -> string_of_bytes n) (persisted_names (List.map text_of_string all) (List.map text_of_string ro)) in
                 let internal n = String.length n >= 2 && String.sub n 0 2 = "__" in
                 let norm l = List.sort_uniq compare (List.filter (fun n -> not (internal n)) l) in
